@@ -8,6 +8,74 @@ Ltac inv H := inversion H; subst; clear H.
 (* closes the three components of the invariant after a step; S : forall r, safe_ev (mkEv _ _ (res_ok r)) *)
 Ltac fin S := repeat split; auto; try (constructor; auto; first [apply (S RFail) | apply (S RUnit) | apply S]).
 
+(* ------------------------------------------------------------------ obligations over the generated tables
+   (coq/theories/Gen/LocalizeTables.v is regenerated from /repo by translate/localize.go on every run;
+   each obligation states what the hand-written model assumes about the source) *)
+
+(* every recognised kustomization file name is a single proper path component *)
+Lemma Gen_kust_names_good : forallb good_comp gen_kust_file_names = true.
+Proof. vm_compute. reflexivity. Qed.
+
+(* localizeNativeFields ranges over a map of exactly these fields with these localizing methods
+   (model: [localize], fields 0-4 of [range_fields]) *)
+Lemma Gen_native_map_fields :
+  gen_native_map_fields =
+  [("bases", "kust.Bases", "lc.localizeRoot");
+   ("components", "kust.Components", "lc.localizeRoot");
+   ("configurations", "kust.Configurations", "lc.localizeFile");
+   ("crds", "kust.Crds", "lc.localizeFile");
+   ("resources", "kust.Resources", "lc.localizeResource")].
+Proof. vm_compute. reflexivity. Qed.
+
+(* ... and localizeBuiltinPlugins over a map of exactly these three *)
+Lemma Gen_plugin_map_fields :
+  gen_plugin_map_fields =
+  [("generators", "kust.Generators"); ("transformers", "kust.Transformers"); ("validators", "kust.Validators")].
+Proof. vm_compute. reflexivity. Qed.
+
+(* every other localizing call of localizeNativeFields, in source order (model: the sequence in
+   [localize]; the two helm calls are outside the model and must stay the only ones that are) *)
+Lemma Gen_native_calls :
+  gen_native_calls =
+  [("localizeFile", "path");
+   ("localizeGenerator", "&kust.ConfigMapGenerator[i].GeneratorArgs");
+   ("localizeGenerator", "&kust.SecretGenerator[i].GeneratorArgs");
+   ("localizeHelmInflationGenerator", "kust");
+   ("localizeHelmCharts", "kust");
+   ("localizePatches", "kust.Patches");
+   ("localizePatches", "kust.PatchesJson6902");
+   ("localizeK8sResource", "string(patch)");
+   ("localizeFile", "replacement.Path")].
+Proof. vm_compute. reflexivity. Qed.
+
+(* the built-in plugin field specs (harness/c18.go pluginRefs implements this table; the helm rows are
+   outside the model) and the localizing function of each filter group (model: [loc_pref]) *)
+Lemma Gen_plugin_specs :
+  gen_plugin_specs =
+  [("0", "ConfigMapGenerator", "env"); ("0", "ConfigMapGenerator", "envs");
+   ("0", "SecretGenerator", "env"); ("0", "SecretGenerator", "envs");
+   ("0", "HelmChartInflationGenerator", "valuesFile");
+   ("0", "HelmChartInflationGenerator", "additionalValuesFiles");
+   ("0", "PatchTransformer", "path"); ("0", "PatchJson6902Transformer", "path");
+   ("0", "ReplacementTransformer", "replacements/path");
+   ("1", "ConfigMapGenerator", "files"); ("1", "SecretGenerator", "files");
+   ("2", "PatchStrategicMergeTransformer", "paths")] /\
+  gen_plugin_spec_fns =
+  [("0", "lbp.lc.localizeFile"); ("1", "lbp.lc.localizeFileSource"); ("2", "lbp.lc.localizeK8sResource")].
+Proof. vm_compute. split; reflexivity. Qed.
+
+(* the log.Fatalf / log.Panicf sites of the package.  Model: cleanedRelativePath #1 = XFatal,
+   localizeRoot #1 = XPanic; the filepath.Rel sites cannot fire on cleaned absolute paths; the
+   others belong to remote targets and helm (outside the model).  A new site fails this obligation. *)
+Lemma Gen_fatal_sites :
+  List.map (fun t => (fst (fst t), snd (fst t))) gen_fatal_sites =
+  [("Run", "log.Panicf"); ("localizeRoot", "log.Panicf"); ("localizeRoot", "log.Panicf");
+   ("copyChartHome", "log.Panicf"); ("copyChartHome", "log.Panicf"); ("copyDir", "log.Panicf");
+   ("hasRef", "log.Fatalf"); ("cleanedRelativePath", "log.Fatalf"); ("cleanedRelativePath", "log.Fatalf");
+   ("locFilePath", "log.Panicf"); ("locRootPath", "log.Panicf"); ("locRootPath", "log.Panicf");
+   ("locRootPath", "log.Panicf")].
+Proof. vm_compute. reflexivity. Qed.
+
 (* ------------------------------------------------------------------ interpreter *)
 
 Lemma run_op {A} ch fault (e : eff) (k : eres -> prog A) w :
@@ -692,13 +760,14 @@ Section Safety.
       destruct r; auto. apply in_app_or in H1. destruct H1 as [H1|[H1|[]]]; auto. inv H1. auto.
   Qed.
 
-  Lemma join_abs_kust_name d n : In n kust_names -> join_abs d n = d ++ [n].
+  Lemma kust_name_good n : In n kust_names -> good_comp n = true.
   Proof.
-    intros [<-|[<-|[<-|[]]]]; apply join_abs_name; reflexivity.
+    intros H. pose proof Gen_kust_names_good as G. unfold kust_names in H.
+    rewrite forallb_forall in G. auto.
   Qed.
 
-  Lemma kust_name_good n : In n kust_names -> good_comp n = true.
-  Proof. intros [<-|[<-|[<-|[]]]]; reflexivity. Qed.
+  Lemma join_abs_kust_name d n : In n kust_names -> join_abs d n = d ++ [n].
+  Proof. intros H. apply join_abs_name. apply kust_name_good; auto. Qed.
 
   Lemma triple_ldr_new lc path :
     triple (ldr_new A lc path) (fun root => good_path root = true /\ is_prefix scope root = true).
